@@ -374,7 +374,7 @@ def check_string(ctx, paths, s, model, deep):
             if r != exp_r and not (s == "" and r in (None, "")):
                 ctx.fail("reply element text not decoded to the document's string",
                          {"s": s, "doc": doc.decode("utf-8")}, r, s, direction="reply", position="text")
-            if k != s and not (s == "" and k in (None, "")):
+            if k != s:       # (an attribute that is present and empty is the empty string, not None)
                 ctx.fail("reply attribute value not decoded to the document's string",
                          {"s": s, "doc": doc.decode("utf-8")}, k, s, direction="reply", position="attr")
 
